@@ -70,7 +70,10 @@ func c56SkipName(m []byte, off int) int {
 			if ptr >= len(m) {
 				return -1
 			}
-			if ptr >= off {
+			if ptr == off {
+				return -1 // points at itself: can never terminate
+			}
+			if ptr > off {
 				return -2
 			}
 			// the target must itself be a walkable name
@@ -198,7 +201,7 @@ func c56DrawMsg(rt *rapid.T, c *c56Case) []byte {
 	if rapid.IntRange(0, 19).Draw(rt, "nq") == 0 {
 		nq = 2
 	}
-	qtypes := []uint16{dns.TypeA, dns.TypeAAAA, dns.TypeTXT, dns.TypeMX, dns.TypeANY, dns.TypeHTTPS, dns.TypeSOA, dns.TypePTR, 65280}
+	qtypes := []uint16{dns.TypeA, dns.TypeAAAA, dns.TypeTXT, dns.TypeMX, dns.TypeANY, 65, dns.TypeSOA, dns.TypePTR, 65280}
 	for i := 0; i < nq; i++ {
 		qc := uint16(dns.ClassINET)
 		if rapid.IntRange(0, 9).Draw(rt, "qclass") == 0 {
